@@ -21,7 +21,7 @@ from .. import diffcon, effects
 from ..cfg import expand_conds
 from .common import (cfg_of, fkey, conds, has_cond, cond_texts, stmts_of, walk_body, call_tail, call_name,
                      returns_of, handler_reraises_always, stmt_of)
-from .c15 import next_derived, is_next_call
+from .c15 import next_derived, is_next_call, _guarded
 
 STATS = 'clastic.middleware.stats'
 
@@ -54,7 +54,7 @@ def run(rep):
     # every group runs even when another one cannot be analysed (its gap is reported as ANALYSIS-ERROR at the end)
     for group in (_request_records_once, _report_before_reset, _reported_count, _reservoir_add, _reservoir_resize,
                   _reservoir_init, _reservoir_rest):
-        rep.guard(group, rep, repo, st)
+        _guarded(rep, group, rep, repo, st)
     for rule, n in (('R19.a', 8), ('R19.b', 6), ('R19.c', 12)):
         rep.guard(rep.floor, rule, n)
 
